@@ -182,6 +182,26 @@ def generate(rng, tier):
                 S = rng.choice(["F", "G"])
                 lay = rng.choice(["c", "c", "c", "rev", "s2", "w"])
                 cases.append({"line": f"{S} mono " + t_vec(v, ff if S == "F" else vlib.ff32, lay), "meta": {"v": v, "nan": True}})
+    # plateaus that exactly fill blocks of 256 pairs inside long strictly monotonic vectors (seed C12-r8m1: block summaries merged with
+    # "an all-ties block has no direction" lose the fact that a tie occurred)
+    for n in ([513, 600, 770, 1025] if tier == "quick" else [513, 514, 600, 769, 770, 1025, 1281, 2049]):
+        for start in range(0, n - 1, 256):
+            for blocks in (1, 2):
+                end = min(start + 256 * blocks, n - 1)          # pairs start .. end-1 are ties
+                if end - start < 256 and end != n - 1:
+                    continue
+                for sgn in (1, -1):
+                    v, cur = [], 0
+                    for i in range(n):
+                        v.append(cur)
+                        if not (start <= i < end):
+                            cur += sgn
+                    emit(v)
+                    if rng.random() < 0.3:
+                        w = list(v)
+                        k = rng.randrange(n)
+                        w[k] += rng.choice([1, -1]) * 3       # plus one irregularity somewhere
+                        emit(w)
     lens = [32, 33, 39, 40, 41, 64, 65, 100, 257, 300] if tier == "quick" else [32, 33, 34, 39, 40, 41, 47, 48, 49, 64, 65, 72, 100, 128, 129, 256, 257, 300, 513, 600]
     for n in lens:
         steps = set(range(0, min(n - 1, 10))) | set(range(max(0, n - 11), n - 1)) | {rng.randrange(n - 1) for _ in range(6)}
